@@ -300,5 +300,29 @@ def ret_locals(f):
                     if pl is not None and not pl.get("pr") and pl["l"] not in S:
                         S.add(pl["l"])
                         changed = True
+                    elif pl is not None and len(pl.get("pr", [])) == 2 and isinstance(pl["pr"][0], dict) and pl["pr"][0].get("d") == "Ready" and isinstance(pl["pr"][1], dict) and pl["pr"][1].get("f") == 0:
+                        # the value of an awaited helper that was spliced in: `x = (poll_result as Ready).0` where every
+                        # definition of poll_result is `Poll::Ready(move <helper return place>)`
+                        d = pl["l"]
+                        srcs = []
+                        okd = True
+                        for b2 in f.blocks:
+                            for s2 in b2["s"]:
+                                if s2["k"] == "assign" and not s2["p"].get("pr") and s2["p"]["l"] == d:
+                                    r2 = s2["r"]
+                                    if r2["k"] == "agg" and r2.get("def") == "std::task::Poll" and r2.get("variant") == "Ready" and len(r2.get("ops", [])) == 1:
+                                        o2 = r2["ops"][0].get("m") or r2["ops"][0].get("c")
+                                        if o2 is not None and not o2.get("pr"):
+                                            srcs.append(o2["l"])
+                                            continue
+                                    okd = False
+                            t2 = b2["t"]
+                            if t2["k"] == "call" and not t2["dest"].get("pr") and t2["dest"]["l"] == d:
+                                okd = False      # a real poll call remains: not (only) a spliced helper
+                        if okd:
+                            for y in srcs:
+                                if y not in S:
+                                    S.add(y)
+                                    changed = True
     f._cache["ret_locals"] = S
     return S
